@@ -721,6 +721,13 @@ func rulesC19(e *Engine, r *Report) {
 		}
 		r.Min("R19.14", "returns of the group-by capture", n, 1)
 	}
+	// ---------------------------------------------------------------- R19.15
+	r.Rule("R19.15", "a duration is encoded as it is: marshal.Duration.MarshalJSON writes String() of the value itself - not of a rounded or truncated one - so that every duration option survives the parse, encode, parse trip to a managed client (400ms rounded to 0s comes back as `omitted` and is replaced by a default)")
+	if fn := needFn(e, r, "R19.15", "marshal.(Duration).MarshalJSON"); fn != nil {
+		ok := len(e.findInstrs(fn, "call(json.Marshal)(call(time.(Duration).String)(p0.Duration))", false)) == 1
+		r.Check(ok, "R19.15", "marshal.(Duration).MarshalJSON: json.Marshal(d.String())", e.Pos(fn.Pos()),
+			"the encoder no longer writes the duration's own String(): a value is changed on its way through JSON", 1)
+	}
 }
 
 func tagOfField(f *types.Var) string { return strings.ToLower(f.Name()) }
